@@ -488,6 +488,23 @@ fn base_coverage(agg: &Agg, plans: &[(String, usize)], litmus: (usize, u64), cap
     ])
 }
 
+/// Result of the last loom cross-check of the simulator (written by ./check), if there is one.
+fn loom_report(ctx: &Ctx) -> Value {
+    for mode in ["full", "bounded"] {
+        let p = ctx.verif_dir.join(format!("target/litmus-loom-{mode}.json"));
+        if let Ok(s) = std::fs::read_to_string(&p) {
+            if let Ok(mut v) = serde_json::from_str::<Value>(&s) {
+                if let Some(a) = v["programs"].as_array() {
+                    let short: Vec<Value> = a.iter().map(|r| json!({"program": r["program"], "loom_outcomes": r["loom_outcomes"], "simulator_outcomes": r["simulator_outcomes"], "equal": r["equal"], "loom_iterations": r["loom_iterations"]})).collect();
+                    v["programs"] = json!(short);
+                }
+                return v;
+            }
+        }
+    }
+    json!("not run (loom cross-check unavailable)")
+}
+
 fn assumptions() -> Vec<String> {
     vec![
         "memory model: C11 release/acquire + relaxed + fences, promise-free (Kang et al. POPL'17); record bytes treated as relaxed per-chunk accesses (Boehm MSPC'12); SeqCst treated as AcqRel (sound for one writer and non-storing readers)".into(),
@@ -602,6 +619,7 @@ fn run_reader_prop(ctx: &Ctx, prop: Prop, lit: (usize, u64)) -> i32 {
         coverage.insert(k.into(), v);
     }
     coverage.insert("budget_s".into(), json!(budget));
+    coverage.insert("loom_cross_check_of_the_simulator".into(), loom_report(ctx));
     let mut violations: Vec<Violation> = vec![];
     for (_, (_, v)) in agg.best.iter() {
         if let Err(e) = confirm(ctx, v) {
